@@ -525,6 +525,16 @@ def run_c12(tier, seed, replay=None):
         k = len(cases)
         cases.append(mk_case([], ["q", "r"], pre + [["for", "e", ["list"] + elems] + body], explicit_of=k + 1))
         cases.append(mk_case([], ["q", "r"], pre + [subst_goal(b, "e", x) for x in elems for b in body]))
+    # collections with the empty list (and other lists) among their elements: every element gets its body, also those after a []
+    for _ in range(n // 4):
+        elems = [rnd.choice([1, "q", "nil", "nil", ["list", 2], "r", 7]) for _ in range(rnd.randint(2, 5))]
+        if "nil" not in elems[:-1]:
+            elems.insert(rnd.randint(0, len(elems) - 1), "nil")
+        body = rnd.choice([[["neq", "e", 7]], [["lib", "member", "e", ["list", "nil", 1, ["list", 2]]]], [["neq", "e", "q"]],
+                           [["cond", ["eq", "e", "nil"], ["eq", "e", 1], ["eq", "e", 7]]]])
+        k = len(cases)
+        cases.append(mk_case([], ["q", "r"], [["for", "e", ["list"] + elems] + body], explicit_of=k + 1))
+        cases.append(mk_case([], ["q", "r"], [subst_goal(b, "e", x) for x in elems for b in body]))
     return pcheck.run_check("C12", tier, seed, cases, "exact", oracle_c12, cone=CONE_D, replay=replay,
         rule="for e in [t1..tn] { body } (n = 0..4; ground, partial and shared-variable elements; bodies of ==, !=, conde, fresh, member over e "
              "and the query variables) against the explicit conjunction of the instantiated bodies, as answer multisets (ground-instance sets "
@@ -609,6 +619,17 @@ def run_c22(tier, seed, replay=None):
                            ["eq", val, "y"], ["eq", ["list", val, val], ["list", "x", "y"]]])
         goals = [["fresh", ["x", "y", "z"], alias, ["probe", "a"], late, ["probe", "b"], ["eq", "q", ["list", "x", "y"]], ["probe", "end"]]]
         cases.append(mk_case([], ["q", "r"], goals))
+    # arithmetic constraints over SPARSE domains, where the constraint's own narrowing binds one operand (a domain collapses to
+    # one value) while the others stay open: the nested re-run must leave the hook counters balanced
+    for _ in range(n // 3):
+        rel = rnd.choice(["plusfd", "plusfd", "minusfd", "timesfd"])
+        du = sorted(rnd.sample(range(1, 5), rnd.randint(2, 3)))
+        dv = sorted(rnd.sample(range(1, 5), rnd.randint(2, 3)))
+        dw = sorted(rnd.sample(range(0, 13), rnd.randint(1, 3)))
+        goals = [["dom", "q", ["v"] + du], ["dom", "r", ["v"] + dv], ["dom", "t", ["v"] + dw], ["probe", "a"],
+                 ["rel", rel, "q", "r", "t"], ["probe", "b"], rnd.choice([["neq", "q", du[0]], ["rel", "diseqfd", "q", "r"], "true"]), ["probe", "c"],
+                 rnd.choice([["eq", "q", du[-1]], "true"]), ["probe", "end"]]
+        cases.append(mk_case([], ["q", "r", "t"], goals, fd=True, mode="bag"))
     # ONE constraint goal value solved twice on the same path while its first constraint is still stored (goal values are
     # cheap clones): every posting stores a constraint of its own and fires with_constraint once
     for _ in range(n // 4):
